@@ -369,7 +369,7 @@ def run(tier):
     full_doc = parse(full_query)
     fragments_text = full_query[full_query.index("fragment FullType"):]
     lookup_query = "query L($n: String!) { __type(name: $n) { ...FullType } }\n" + fragments_text
-    n_schemas = 30 if quick else 60
+    n_schemas = 20 if quick else 60
     validated = set()
     n_model_cases = [0]
 
@@ -385,29 +385,52 @@ def run(tier):
                 ck.violation(key, f"model disagrees: {what}: {d} (first = implementation)", rep)
         n_model_cases[0] += len(cases)
 
-    for i in range(n_schemas):
+    # minimal probes first (deterministic keys, minimal replays): one argument with a Python default value
+    from graphql import (GraphQLArgument, GraphQLField, GraphQLFloat, GraphQLID, GraphQLInt, GraphQLList,
+                         GraphQLObjectType, GraphQLSchema, GraphQLString)
+    from graphql.type import GraphQLDefaultInput
+    probes = []
+    for ty, v in ([(GraphQLID, v) for v in ["123", "123\n", "-5\n", "007", "", 5]]
+                  + [(GraphQLString, v) for v in ["", "123\n", '"', "\\", "a\u2028b"]]
+                  + [(GraphQLFloat, v) for v in [0.0, 1e20, 5e-324, 3]] + [(GraphQLList(GraphQLID), ["1\n", 2])]):
+        q = GraphQLObjectType("Query", {"f": GraphQLField(GraphQLInt, args={
+            "a": GraphQLArgument(ty, default=GraphQLDefaultInput(value=v))})})
+        probes.append((f"default-probe:{ty}:{v!r}", GraphQLSchema(q)))
+    n_probes = len(probes) if quick else len(probes)
+    for i in range(-n_probes, n_schemas):
         cases, meta = [], []
-        spec = G.gen_spec(rng, size=rng.randint(1, 3), adversarial=i % 4 != 0, directive_deprecation=i % 2 == 0)
-        sdl = G.spec_to_sdl(spec)
-        mode = "sdl" if i % 2 == 0 else "prog"
-        try:
-            s = (build_schema(sdl, experimental_directives_on_directive_definitions=True) if mode == "sdl"
-                 else G.spec_to_schema(spec, rng))
+        if i < 0:
+            key0, s = probes[i + n_probes]
+            mode, sdl = "probe", key0
             if validate_schema(s):
-                raise ValueError("invalid")
-        except Exception as e:  # noqa: BLE001
-            ck.count("generator_invalid")
-            continue
+                ck.count("probe_invalid")
+                continue
+            rep0 = {"relation": "introspection", "mode": "default value probe", "schema": key0, "programmatic": True}
+            i = 1000 + i  # option sampling below only needs some index
+        else:
+            spec = G.gen_spec(rng, size=rng.randint(1, 3), adversarial=i % 4 != 0, directive_deprecation=i % 2 == 0)
+            sdl = G.spec_to_sdl(spec)
+            mode = "sdl" if i % 2 == 0 else "prog"
+            try:
+                s = (build_schema(sdl, experimental_directives_on_directive_definitions=True) if mode == "sdl"
+                     else G.spec_to_schema(spec, rng))
+                if validate_schema(s):
+                    raise ValueError("invalid")
+            except Exception as e:  # noqa: BLE001
+                ck.count("generator_invalid")
+                continue
+            rep0 = {"relation": "introspection", "mode": mode, "sdl": sdl, "programmatic": mode == "prog"}
+            key0 = f"{mode}:{sdl}"
         ck.count("schemas_" + mode)
-        rep0 = {"relation": "introspection", "mode": mode, "sdl": sdl, "programmatic": mode == "prog"}
-        key0 = f"{mode}:{sdl}"
         try:
             full = introspection_from_schema(s, **{k: True for k in OPTS})
         except Exception as e:  # noqa: BLE001
             ck.violation(key0, f"introspection_from_schema (all options) raised {type(e).__name__}: {e}", rep0)
             continue
         # -- option combinations
-        if quick:
+        if mode == "probe":
+            combos = [all_combos[0], all_combos[-1], all_combos[37], all_combos[90]]
+        elif quick:
             combos = [all_combos[0], all_combos[-1]]
             combos += [dict({k: True for k in OPTS}, **{k: False}) for k in OPTS]
             combos += [dict({k: False for k in OPTS}, **{k: True}) for k in OPTS]
@@ -476,7 +499,7 @@ def run(tier):
         meta.append((f"{key0}:lookup:{tn}", rep0, "Introspect.type_lookup", by_name[tn]))
         # -- ad-hoc selections
         ad = Adhoc(rng, full)
-        for _ in range(6 if quick else 12):
+        for _ in range(2 if mode == "probe" else 6 if quick else 12):
             q, want = ad.query()
             key = f"{key0}:adhoc:{q}"
             rep = dict(rep0, query=q)
